@@ -74,6 +74,20 @@ CLAIMED = {
   note="Trusted: as C05; the T1 dump of the error table. Invalid pointer arguments other than NULL are outside the property.",
   technique="Coq proof (frame conditions as record equalities; finite table by vm_compute) + regenerated error table + differential invalid-call scripts",
   design_ref="DESIGN.md section 5 C09"),
+ "C10": dict(
+  text="Theorems (Coq): [fc], the decision list regenerated from sf_format_check by the translator on every run, equals the hand-written write-mode table "
+       "[writable] for EVERY channel count and EVERY sample rate other than 0 and every enumerated container x encoding with any endian bits (generic "
+       "theorem of DecList.v: two decision lists that agree on the representatives k-1,k,k+1 of the constants they mention agree on all integers; the "
+       "2.6 million representative environments are evaluated in the kernel); the unrestricted statement is refuted at sample rate 0 (witness theorem); "
+       "the simple / major / subtype lists have pairwise distinct formats and non-empty distinct names, refuse out-of-range indices, every simple "
+       "format passes sf_format_check and every major has a usable subtype (complete evaluation over the regenerated lists). Tie: T2 translation "
+       "(refuses anything outside its subset) cross-checked against the C function on the complete property grid + 40 000 random words; the table is "
+       "tied by enumerating the grid on the implementation: open for write, frames through all four sample types, close, re-open as the same "
+       "container/encoding/channels.",
+  note="Trusted: Coq kernel + vm_compute, translator/fc2gallina.py, T1 list dump, the hand-written table Writable.v (tied by the grid run), extraction, "
+       "harness. Known findings: sample rate 0 accepted by sf_format_check only; IRCAM float32 rate field at 2^31-1.",
+  technique="Coq proof over a decision list regenerated from the source (translator) + reduction-to-representatives theorem + complete grid enumeration",
+  design_ref="DESIGN.md section 5 C10"),
 }
 
 
